@@ -11,6 +11,8 @@ most common behaviour-preserving rewrites are undone here, once, for all rules:
   3. COLLECT   `xs = []` + `for v in it: [if c:] xs.append(e)` becomes `xs = [e for v in it if c]` (likewise `set()`/`.add`);
                a loop `for v in it: [if c:] if not e: return False` + `return True` becomes `return all(e for v in it if c)`.
   4. DICTS     `dict(a=b)` and `{'a': b}` are the same thing to the interpreter (handled in absint, not here).
+  5. UNFOLD    the inverse of COLLECT, in a function that had a `for` loop in the inventory and has fewer now: `return any/all(<genexp>)`,
+               `x = [<comprehension>]`, `x = {<comprehension>}` become the explicit loops again.
 
 Every transformation keeps line numbers (copy_location), evaluation order of effects, and the set and order of suspension points.
 Set KVERIF_NOCANON=1 to analyse the raw tree.
@@ -109,6 +111,41 @@ class _Subst(ast.NodeTransformer):
 
 
 # ---------------------------------------------------------------------------------------------------------------- 1. INLINE
+def _terminates(stmts: list) -> bool:
+    if not stmts:
+        return False
+    last = stmts[-1]
+    if isinstance(last, (ast.Return, ast.Raise)):
+        return True
+    if isinstance(last, ast.If):
+        return bool(last.orelse) and _terminates(last.body) and _terminates(last.orelse)
+    return False
+
+
+def _tail_convert(stmts: list, mk) -> Optional[list]:
+    """Rewrite a statement list whose `return`s all sit in tail position of if/else chains (guard clauses) into a list without returns:
+    `mk(return_stmt_or_None)` yields the statement that replaces a return (None = falling off the end).  None if a return sits elsewhere
+    (in a loop, try, with, match): such a helper is not inlined."""
+    out: list = []
+    for i, st in enumerate(stmts):
+        if isinstance(st, ast.Return):
+            out.append(mk(st))
+            return out
+        if any(isinstance(n, ast.Return) for n in ast.walk(st)):
+            if not isinstance(st, ast.If):
+                return None
+            rest = stmts[i + 1:]
+            b = _tail_convert(list(st.body) + ([] if _terminates(st.body) else copy.deepcopy(rest)), mk)
+            o = _tail_convert(list(st.orelse) + ([] if _terminates(st.orelse) else copy.deepcopy(rest)), mk)
+            if b is None or o is None:
+                return None
+            out.append(ast.copy_location(ast.If(test=st.test, body=b, orelse=o), st))
+            return out
+        out.append(st)
+    out.append(mk(None))
+    return out
+
+
 class Inliner:
     def __init__(self, modname: str, tree: ast.Module):
         self.modname = modname
@@ -133,6 +170,31 @@ class Inliner:
                         used_as_value.add(c.id)
         for h in used_as_value:
             self.helpers.pop(h, None)
+        # new private methods (not in the inventory), called as `self.<name>(...)`; the name must be defined once in the module
+        self.mhelpers: dict[str, ast.AST] = {}
+        seen: dict[str, int] = {}
+        for c in tree.body:
+            if isinstance(c, ast.ClassDef):
+                for n in c.body:
+                    if isinstance(n, (ast.FunctionDef, ast.AsyncFunctionDef)):
+                        seen[n.name] = seen.get(n.name, 0) + 1
+        for c in tree.body:
+            if isinstance(c, ast.ClassDef):
+                for n in c.body:
+                    if isinstance(n, (ast.FunctionDef, ast.AsyncFunctionDef)) and f'{modname}.{c.name}.{n.name}' not in known and seen.get(n.name) == 1 \
+                            and n.name.startswith('_') and not n.name.startswith('__') and n.args.args and n.args.args[0].arg == 'self' and self._inlinable(n):
+                        self.mhelpers[n.name] = n
+        for p in ast.walk(tree):        # a method used as a value (self._x without a call) is left alone
+            for c in ast.iter_child_nodes(p):
+                if isinstance(c, ast.Attribute) and c.attr in self.mhelpers and not (isinstance(p, ast.Call) and p.func is c):
+                    self.mhelpers.pop(c.attr, None)
+
+    def _helper_of(self, call: ast.Call):
+        if isinstance(call.func, ast.Name) and call.func.id in self.helpers:
+            return self.helpers[call.func.id], False
+        if isinstance(call.func, ast.Attribute) and isinstance(call.func.value, ast.Name) and call.func.value.id == 'self' and call.func.attr in self.mhelpers:
+            return self.mhelpers[call.func.attr], True
+        return None, False
 
     @staticmethod
     def _inlinable(fn) -> bool:
@@ -151,14 +213,13 @@ class Inliner:
             if isinstance(n, ast.Call) and isinstance(n.func, ast.Name) and n.func.id == fn.name:
                 return False
         rets = [n for n in ast.walk(fn) if isinstance(n, ast.Return)]
-        if len(rets) > 1:
-            return False
-        if rets and rets[0] is not body[-1]:
-            return False
+        if len(rets) > 1 or (rets and rets[0] is not body[-1]):
+            # several returns: inlinable when they all sit in tail position of if/else chains (guard-clause style), see _tail_convert
+            return _tail_convert(body, lambda r: r) is not None and sum(1 for _ in ast.walk(fn)) < 1500
         return True
 
     def run(self) -> int:
-        if not self.helpers:
+        if not self.helpers and not self.mhelpers:
             return 0
         done = 0
         for _ in range(3):       # helpers calling helpers
@@ -172,6 +233,8 @@ class Inliner:
         count = 0
         for fn in [n for n in ast.walk(tree) if isinstance(n, (ast.FunctionDef, ast.AsyncFunctionDef))]:
             if fn.name in self.helpers and fn in tree.body:
+                continue
+            if fn.name in self.mhelpers and self.mhelpers[fn.name] is fn:
                 continue
             count += self._rewrite_block_owner(fn)
         return count
@@ -203,11 +266,13 @@ class Inliner:
         """(call, awaited) if value is `helper(...)` or `await helper(...)` of an inlinable helper."""
         if isinstance(value, ast.Await) and isinstance(value.value, ast.Call):
             c = value.value
-            if isinstance(c.func, ast.Name) and c.func.id in self.helpers and isinstance(self.helpers[c.func.id], ast.AsyncFunctionDef):
+            h, _ = self._helper_of(c)
+            if isinstance(h, ast.AsyncFunctionDef):
                 return c, True
-        if isinstance(value, ast.Call) and isinstance(value.func, ast.Name) and value.func.id in self.helpers \
-                and isinstance(self.helpers[value.func.id], ast.FunctionDef):
-            return value, False
+        if isinstance(value, ast.Call):
+            h, _ = self._helper_of(value)
+            if isinstance(h, ast.FunctionDef):
+                return value, False
         return None, False
 
     def _try_stmt(self, s: ast.stmt) -> Optional[list]:
@@ -232,6 +297,18 @@ class Inliner:
                 for n in out:
                     ast.fix_missing_locations(n)
                 return out
+        if isinstance(s, ast.Assign) and len(s.targets) == 1 and isinstance(s.targets[0], ast.Tuple) and isinstance(ret, ast.Tuple) \
+                and len(ret.elts) == len(s.targets[0].elts) and all(isinstance(t, ast.Name) for t in s.targets[0].elts) \
+                and all(isinstance(e, ast.Name) and '__i' in e.id and e.id.rsplit('__i', 1)[-1].isdigit() for e in ret.elts) \
+                and len({e.id for e in ret.elts}) == len(ret.elts):
+            # `a, b = helper()` with `return x, y` of helper locals: the helper's locals become the caller's targets
+            tnames = [t.id for t in s.targets[0].elts]
+            if not any(t in _names(x) for t in tnames for x in out):
+                ren = _Subst({e.id: t for e, t in zip(ret.elts, tnames)})
+                out = [ren.visit(x) for x in out]
+                for n in out:
+                    ast.fix_missing_locations(n)
+                return out
         if isinstance(s, ast.Assign):
             out.append(ast.copy_location(ast.Assign(targets=s.targets, value=ret), s))
         elif isinstance(s, ast.AnnAssign):
@@ -244,10 +321,11 @@ class Inliner:
 
     def _expand(self, call: ast.Call, pure_args_inline: bool = False):
         """(statements, return expression or None) of the helper body with parameters bound to the call's arguments."""
-        fn = self.helpers[call.func.id]
+        fn, is_method = self._helper_of(call)
         self.counter += 1
         tag = f'__i{self.counter}'
-        params = [a.arg for a in fn.args.args] + [a.arg for a in fn.args.kwonlyargs]
+        posargs = fn.args.args[1:] if is_method else fn.args.args
+        params = [a.arg for a in posargs] + [a.arg for a in fn.args.kwonlyargs]
         defaults = {}
         pos = fn.args.args
         for a, d in zip(pos[len(pos) - len(fn.args.defaults):], fn.args.defaults):
@@ -258,9 +336,9 @@ class Inliner:
         bound: dict[str, ast.AST] = {}
         if any(isinstance(a, ast.Starred) for a in call.args) or any(k.arg is None for k in call.keywords):
             return None, None
-        for a, v in zip([x.arg for x in fn.args.args], call.args):
+        for a, v in zip([x.arg for x in posargs], call.args):
             bound[a] = v
-        if len(call.args) > len(fn.args.args):
+        if len(call.args) > len(posargs):
             return None, None
         for k in call.keywords:
             if k.arg not in params:
@@ -304,6 +382,17 @@ class Inliner:
                 if isinstance(n, ast.ExceptHandler) and n.name and n.name in mapping and isinstance(mapping[n.name], str):
                     n.name = mapping[n.name]
         ret = None
+        nrets = sum(1 for x in body for n in ast.walk(x) if isinstance(n, ast.Return))
+        if nrets > 1 or (nrets == 1 and not isinstance(body[-1], ast.Return)):
+            rname = f'ret{tag}'
+
+            def mk(r):
+                val = r.value if (r is not None and r.value is not None) else ast.Constant(value=None)
+                return ast.copy_location(ast.Assign(targets=[ast.Name(id=rname, ctx=ast.Store())], value=val), r if r is not None else call)
+            conv = _tail_convert(body, mk)
+            if conv is None:
+                return None, None
+            return pre + conv, ast.copy_location(ast.Name(id=rname, ctx=ast.Load()), call)
         if body and isinstance(body[-1], ast.Return):
             ret = body[-1].value
             body = body[:-1]
@@ -317,8 +406,8 @@ class Inliner:
             def visit_Call(t, n):  # noqa: N805
                 nonlocal count
                 t.generic_visit(n)
-                if isinstance(n.func, ast.Name) and n.func.id in self.helpers:
-                    fn = self.helpers[n.func.id]
+                fn, _m = self._helper_of(n)
+                if fn is not None:
                     body = [x for x in fn.body if not (isinstance(x, ast.Expr) and isinstance(x.value, ast.Constant))]
                     if isinstance(fn, ast.FunctionDef) and len(body) == 1 and isinstance(body[0], ast.Return) and body[0].value is not None:
                         stmts, ret = self._expand(n, pure_args_inline=True)
@@ -674,6 +763,95 @@ def _fold_if_assign(fn) -> int:
 
 
 # ---------------------------------------------------------------------------------------------------------------- entry point
+# ---------------------------------------------------------------------------------------------------------------- 5. UNFOLD
+def _loop_of(comp_generators: list, innermost: list, at: ast.AST) -> ast.stmt:
+    """Nested `for`/`if` statements equivalent to the generators of a comprehension, with ``innermost`` as the body."""
+    body = innermost
+    for gen in reversed(comp_generators):
+        for cond in reversed(gen.ifs):
+            pre = []
+            # `if (x := E) is not None` -> `x = E` / `if x is not None` (the walrus is the first thing evaluated in the test)
+            first = cond.left if isinstance(cond, ast.Compare) else cond
+            if isinstance(first, ast.NamedExpr) and isinstance(first.target, ast.Name):
+                pre = [ast.copy_location(ast.Assign(targets=[ast.Name(id=first.target.id, ctx=ast.Store())], value=first.value), at)]
+                ref = ast.copy_location(ast.Name(id=first.target.id, ctx=ast.Load()), first)
+                if isinstance(cond, ast.Compare):
+                    cond = ast.copy_location(ast.Compare(left=ref, ops=cond.ops, comparators=cond.comparators), cond)
+                else:
+                    cond = ref
+            body = pre + [ast.copy_location(ast.If(test=cond, body=body, orelse=[]), at)]
+        body = [ast.copy_location(ast.For(target=gen.target, iter=gen.iter, body=body, orelse=[], type_comment=None), at)]
+    return body[0]
+
+
+def _unfold_stmt(s: ast.stmt) -> Optional[list]:
+    """`return any/all(<genexp>)`, `x = [<listcomp>]`, `x = {<dictcomp>}`, `x = {<setcomp>}`, `return [<listcomp>]` as explicit loops (the inverse of
+    COLLECT): applied only in functions that had a loop in the inventory and have fewer loops now."""
+    def gens_ok(c) -> bool:
+        return all(not g.is_async for g in c.generators)
+
+    def store(name: str) -> ast.Name:
+        return ast.Name(id=name, ctx=ast.Store())
+
+    def load(name: str) -> ast.Name:
+        return ast.Name(id=name, ctx=ast.Load())
+    if isinstance(s, ast.Return) and isinstance(s.value, ast.Call) and isinstance(s.value.func, ast.Name) and s.value.func.id in ('any', 'all') \
+            and len(s.value.args) == 1 and not s.value.keywords and isinstance(s.value.args[0], (ast.GeneratorExp, ast.ListComp)) and gens_ok(s.value.args[0]):
+        comp = s.value.args[0]
+        is_any = s.value.func.id == 'any'
+        test = comp.elt if is_any else ast.copy_location(ast.UnaryOp(op=ast.Not(), operand=comp.elt), comp.elt)
+        inner = [ast.copy_location(ast.If(test=test, body=[ast.copy_location(ast.Return(value=ast.Constant(value=is_any)), s)], orelse=[]), s)]
+        return [_loop_of(comp.generators, inner, s), ast.copy_location(ast.Return(value=ast.Constant(value=not is_any)), s)]
+    tgt = None
+    if isinstance(s, ast.Assign) and len(s.targets) == 1 and isinstance(s.targets[0], ast.Name):
+        tgt, val, ann = s.targets[0].id, s.value, None
+    elif isinstance(s, ast.AnnAssign) and isinstance(s.target, ast.Name) and s.value is not None:
+        tgt, val, ann = s.target.id, s.value, s.annotation
+    elif isinstance(s, ast.Return) and isinstance(s.value, (ast.ListComp, ast.DictComp, ast.SetComp)):
+        tgt, val, ann = '__unfolded', s.value, None
+    if tgt is None or not isinstance(val, (ast.ListComp, ast.DictComp, ast.SetComp)) or not gens_ok(val):
+        return None
+    if tgt in _names(val):
+        return None
+    if isinstance(val, ast.ListComp):
+        init = ast.List(elts=[], ctx=ast.Load())
+        add = ast.Expr(value=ast.Call(func=ast.Attribute(value=load(tgt), attr='append', ctx=ast.Load()), args=[val.elt], keywords=[]))
+    elif isinstance(val, ast.SetComp):
+        init = ast.Call(func=load('set'), args=[], keywords=[])
+        add = ast.Expr(value=ast.Call(func=ast.Attribute(value=load(tgt), attr='add', ctx=ast.Load()), args=[val.elt], keywords=[]))
+    else:
+        init = ast.Dict(keys=[], values=[])
+        add = ast.Assign(targets=[ast.Subscript(value=load(tgt), slice=val.key, ctx=ast.Store())], value=val.value)
+    first = ast.AnnAssign(target=store(tgt), annotation=ann, value=init, simple=1) if ann is not None else ast.Assign(targets=[store(tgt)], value=init)
+    out = [ast.copy_location(first, s), _loop_of(val.generators, [ast.copy_location(add, s)], s)]
+    if isinstance(s, ast.Return):
+        out.append(ast.copy_location(ast.Return(value=load(tgt)), s))
+    return out
+
+
+def _unfold_comprehensions(owner: ast.AST) -> int:
+    count = 0
+    for field in ('body', 'orelse', 'finalbody'):
+        block = getattr(owner, field, None)
+        if isinstance(block, list) and block and isinstance(block[0], ast.stmt):
+            new = []
+            for s in block:
+                repl = _unfold_stmt(s)
+                if repl is not None:
+                    new.extend(repl)
+                    count += 1
+                else:
+                    new.append(s)
+                    if not isinstance(s, (ast.FunctionDef, ast.AsyncFunctionDef, ast.ClassDef)):
+                        count += _unfold_comprehensions(s)
+            setattr(owner, field, new)
+    for h in getattr(owner, 'handlers', []) or []:
+        count += _unfold_comprehensions(h)
+    for c in getattr(owner, 'cases', []) or []:
+        count += _unfold_comprehensions(c)
+    return count
+
+
 def canonicalise(modname: str, tree: ast.Module) -> dict:
     stats = {'inlined': 0, 'temps': 0, 'collected': 0}
     if not enabled():
@@ -693,6 +871,9 @@ def canonicalise(modname: str, tree: ast.Module) -> dict:
             if not n:
                 break
         now_loops = sum(1 for n in ast.walk(fn) if isinstance(n, ast.For))
+        if now_loops < known['for_loops']:
+            stats['unfolded'] = stats.get('unfolded', 0) + _unfold_comprehensions(fn)     # a loop of today's tree was turned into a comprehension
+            now_loops = sum(1 for n in ast.walk(fn) if isinstance(n, ast.For))
         stats['collected'] += _collect_loops(fn, kl, may_fold_all=now_loops > known['for_loops'])
     ast.fix_missing_locations(tree)
     return stats
